@@ -4,7 +4,7 @@
    the membership test guarding re-processing, the tree names compared against the rule names of catbuffer.lark, the index of
    the import path, the exit constants); the right-hand specifications (reach, dfs_spec, before, the exit-status table) are
    fixed text. *)
-From Symv Require Import Cats.Resolve Cats.ResolveProofs.
+From Symv Require Import Cats.Resolve Cats.ResolveProofs Cats.ResolveProofs2.
 Open Scope list_scope.
 
 (* per-run obligation on the regenerated holes *)
@@ -77,6 +77,26 @@ Theorem main_exit_spec : forall fs files root output_requested generator_request
   /\ (written = true <-> code = 0%Z /\ output_requested = true).
 Proof. exact (ResolveProofs.main_exit_spec ops_now holes_intended). Qed.
 Print Assumptions main_exit_spec.
+
+(* the result is THE declaration list of the unique depth-first order -- of every order meeting the specification, not of some *)
+Theorem resolve_result_unique : forall fs files root ds processed order,
+  parse ops_now files fs root = Done ds processed -> dfs_spec fs root order -> ds = decls_at fs order.
+Proof. exact (ResolveProofs2.resolve_result_unique ops_now holes_intended). Qed.
+Print Assumptions resolve_result_unique.
+
+(* the root file's own declarations come last, after everything it (transitively) imports, and the root is listed once *)
+Theorem resolve_root_last : forall fs files root ds processed,
+  parse ops_now files fs root = Done ds processed ->
+  exists before_root, ~ In root before_root /\ ds = decls_at fs before_root ++ decls_of (items_at fs root).
+Proof. exact (ResolveProofs2.resolve_root_last ops_now holes_intended). Qed.
+Print Assumptions resolve_root_last.
+
+(* a failed parse has a cause reachable from the root: a missing file (the caught error) or an unparsable one (the uncaught) *)
+Theorem resolve_failure_cause : forall fs files root e,
+  parse ops_now files fs root = Failed e ->
+  exists q, reach fs root q /\ match e with FCaught => fs q = Missing | FUncaught => fs q = Unparsable end.
+Proof. exact (ResolveProofs.resolve_failure_cause ops_now holes_intended). Qed.
+Print Assumptions resolve_failure_cause.
 
 (* non-vacuity: a diamond (a -> b, c; b -> d; c -> d, a) with a cycle through the root, a self-import and a repeated import *)
 Open Scope string_scope.
